@@ -40,6 +40,9 @@ Inductive fact : Type :=
 | FUU    (b1 b2 : string)                           (* U(b1) < U(b2) *)
 | FRDU   (x : name) (sign : string) (b : string)    (* RD(x) < U(b) ("<")  /  U(b) < RD(x) (">") *)
 | FWRU   (x : name) (sign : string) (b : string)
+| FUUc   (x : name) (b1 : string) (y : name) (b2 : string)   (* U(s.x.get_update_block(b1)) < U(s.y.get_update_block(b2)): declared here over blocks of descendants x, y *)
+| FRDUc  (v : name) (sign : string) (h : name) (b : string)    (* RD(v) <> U(block b of descendant h) *)
+| FWRUc  (v : name) (sign : string) (h : name) (b : string)
 | FM     (m1 m2 : mref) (eq : string)
 | FEdge  (x y : endpoint)                           (* connect( x, y ) of value signals / constants *)
 | FMEdge (x y : name).                              (* connect( x, y ) of two method ports *)
@@ -51,6 +54,8 @@ Definition refs (f : fact) : list name :=
   match f with
   | FComp | FBlk _ _ | FUU _ _ => []
   | FSig x | FMeth x | FTouch x | FRead _ x | FWrite _ x | FCall _ x | FRDU x _ _ | FWRU x _ _ => [x]
+  | FUUc x _ y _ => [x; y]
+  | FRDUc v _ h _ | FWRUc v _ h _ => [v; h]
   | FM m1 m2 _ => mref_refs m1 ++ mref_refs m2
   | FEdge x y => ep_refs x ++ ep_refs y
   | FMEdge x y => [x; y]
@@ -144,6 +149,9 @@ Definition rows_of (g : gfact) : list row :=
   | FUU b1 b2 => [["UU"%string; render o; b1; b2]]
   | FRDU x sg b => [["RDU"%string; render (o ++ x); sg; render o; b]]
   | FWRU x sg b => [["WRU"%string; render (o ++ x); sg; render o; b]]
+  | FUUc x b1 y b2 => [["UU"%string; render (o ++ x); b1; b2]]
+  | FRDUc v sg h b => [["RDU"%string; render (o ++ v); sg; render (o ++ h); b]]
+  | FWRUc v sg h b => [["WRU"%string; render (o ++ v); sg; render (o ++ h); b]]
   | FM m1 m2 e => [["M"%string; render_m o m1; render_m o m2; e]]
   | FMEdge x y => [["adj"%string; render (o ++ x); render (o ++ y)]; ["adj"%string; render (o ++ y); render (o ++ x)]]
   | FEdge x y => [["adj"%string; render_ep o x; render_ep o y]; ["adj"%string; render_ep o y; render_ep o x]] ++
